@@ -285,5 +285,11 @@ func FlagGrammar(s string) bool {
 //@ func (dec *Decoder) String(ptr *string) (result bool)
 //@   modifies ptr
 
+// C04: a literal that the connection refuses (CheckBufferedLiteralFunc returns
+// an error) is a decoding error — no caller may go on and parse the announced
+// octets as something else.
+//
 //@ func (dec *Decoder) Literal(ptr *string) (result bool)
 //@   modifies ptr
+//@   ensures __called("CheckBufferedLiteralFunc") && __failed("CheckBufferedLiteralFunc") ==> !result && dec.err != nil
+
